@@ -59,7 +59,7 @@ Definition is_progress (p : prim) : bool :=
 
 Definition apply_step (vf va : val) (s : state) : sres :=
   match vf with
-  | RecV fb xb body => SPure (subst' fb vf (subst' xb va body))
+  | RecV fb xb body => SPure (subst' xb va (subst' fb vf body))
   | PrimV p args =>
       let args' := (args ++ [va])%list in
       if Nat.ltb (length args') (arity p) then SPure (Val (PrimV p args'))
